@@ -87,7 +87,7 @@ def run(ctx):
             for c in f.calls():
                 if c.name in CHAIN:
                     sites.append((f, c))
-        ctx.floor("C11.R1 re-entry sites" + tag, len(sites), 2 if cname == "MIN" else 4)
+        ctx.floor("C11.R1 re-entry sites" + tag, len(sites), 1 if cname == "MIN" else 4)
         charged_edges = set()
         for f, c in sites:
             inst = "%s%s|%s" % (tag, f.path, c.name.split("::")[-1])
